@@ -281,9 +281,16 @@ def gen_case(rng, sites=None, exc_i=None, garbage=None):
         groups = [["boot-failpoint", "boot-garbage", "hybrid-rerank"], ["fusion", "mmr", "quality-trace"], ["llm-adapter-build", "llm-adapter-ci-provider"], ["store-batch", "store-all", "store-some"]]
         pool = [s for s in SITES if not any(s in g for g in groups)] + [rng.choice(g) for g in groups]
         sites = rng.sample(pool, rng.randint(2, 4))
+    if any(s_.startswith("store-") for s_ in sites):
+        # a store fault is only telling when several approved deltas reach the store: the T4 filters stay wide open
+        cfg["t4"].update({"churn_cap_edges": 64, "delta_norm_cap_l2": 100.0, "novelty_cap_per_node": 1.0})
+        cfg["t4"].pop("cooldowns", None)
     turns = gen_turns(rng, world, n=(3, 4) if any(x.startswith("boot") for x in sites) else (2, 3), agents=("A",), plans=False)
     for t in turns:
-        t["plan"] = {"ops": [{"kind": "Speak"}, {"kind": "EditGraph"}], "deltas": [["node", f"n:{rng.choice('abcd')}", "weight", rng.choice([0.1, -0.2, 0.3]), 1] for _ in range(rng.randint(1, 3))],
+        t["plan"] = {"ops": [{"kind": "Speak"}, {"kind": "EditGraph"}], "deltas": [["node", f"n:{x}", "weight", rng.choice([0.1, -0.2, 0.3]), 1]
+                                # distinct targets (T4 merges repeated ones): a partially failing store needs three or more
+                                # approved deltas to tell "continue with the others" from "stop at the first failure"
+                                for x in rng.sample("abcd", rng.randint(3, 4) if any(s_.startswith("store-") for s_ in sites) else rng.randint(1, 3))],
                      "reflection": True}
     return {"world": world, "cfg": cfg, "turns": turns, "sites": list(sites), "exc": exc_i if exc_i is not None else rng.randrange(len(EXCS)),
             "garbage": (garbage[0] if garbage else rng.choice(GARBAGE)), "garbage_name": (garbage[1] if garbage else None), "seed": rng.randint(0, 10 ** 9), "t3_deny": t3_deny,
